@@ -12,8 +12,8 @@ import time
 from . import build
 
 VERIF = build.VERIF
-EVID = os.path.join(VERIF, "evidence")
-OUT = os.path.join(VERIF, "out")
+EVID = os.environ.get("XSV_EVID_DIR", os.path.join(VERIF, "evidence"))
+OUT = os.environ.get("XSV_OUT_DIR", os.path.join(VERIF, "out"))
 NWORKERS = int(os.environ.get("XSV_WORKERS", "16"))
 
 
@@ -71,7 +71,7 @@ class Check:
                 cmd += ["--known", ",".join(self.open_classes)]
             if budget is not None:
                 cmd += ["--budget", str(budget)]
-            cmd += list(args)
+            cmd += list(args) + os.environ.get("XSV_DRIVER_ARGS", "").split()
             e = dict(base_env)
             e["RC_PARAMS"] = "seed=%d max_size=100" % ((self.seed * 64 + k + 1) & 0x7FFFFFFFFFFFFFFF)
             lg = open(os.path.join(self.outdir, "%s%d.log" % (tag, k)), "w")
@@ -135,7 +135,7 @@ class Check:
         return fails == 3, fails, last
 
     def save_violation(self, rec):
-        d = os.path.join(VERIF, "out", "violations", self.prop)
+        d = os.path.join(OUT, "violations", self.prop)
         os.makedirs(d, exist_ok=True)
         h = hashlib.sha256(json.dumps(rec, sort_keys=True).encode()).hexdigest()[:12]
         p = os.path.join(d, "%s_%s_%s_%s.json" % (rec.get("op", "case"), rec.get("type", ""), rec.get("target", ""), h))
